@@ -15,6 +15,7 @@ Written for C08 (the decider of C01 lives in another clone and targets another r
 -/
 namespace Heph
 namespace Ty
+namespace D2
 
 /-- the languages' bottom built-ins and the `Nothing` classifier -/
 def isBottomTy : Ty → Bool
@@ -74,5 +75,6 @@ def subDFuel (s t : Ty) : Nat := 4 * (size s + size t) + 16
 
 def isSubDTop (s t : Ty) : Bool := isSubD (subDFuel s t) s t
 
+end D2
 end Ty
 end Heph
